@@ -1,16 +1,18 @@
 /-
 Driver for C04: reads cases produced by the Go harness (which compiled the expression with the REAL
 `stateful.NewExpression` and evaluated it over a history of scopes through `Eval`, `Type`+`EvalBool`, direct
-`EvalX`, on the expression and on `CopyReset` copies), replays every case on the model (`evalC` with its
-cache, float operations = Lean `Float`, table/signatures = regenerated `Kap.C04.Gen`) and on the reference
-semantics (`Kap.C04.expect`), and judges
-  * the property itself on the OBSERVED answer (SPECFAIL, checked first), and
+`EvalX`, on the expression and on `CopyReset` copies), replays every case on the model (`World.step`: `evalC` with
+its cache and the lambda-node states shared by all copies, `Funcs` per copy; float operations = Lean `Float`,
+table/signatures = regenerated `Kap.C04.Gen`) and on the reference semantics (`Kap.C04.expect`, one history per
+group), and judges
+  * the property itself on the OBSERVED answer (SPECFAIL, checked first; a failure that is exactly the recorded
+    deviation `nested-lambda-state-shared` — the expression has a lambda node with a stateful body, at least two copies
+    have been evaluated, and the observed answer is the one the shared lambda state gives — is reported as KNOWN), and
   * observed = model (MISMATCH).
 -/
 import Kap.Spec.C04
 import Kap.Gen.C04
 import Kap.Gen.C04Sigs
-import Kap.Model.C04Lambda
 open Kap Kap.C04
 
 namespace Kap.C04.Drv
@@ -124,6 +126,9 @@ partial def parseExpr : List String → Option (E × List String)
     let (l, rest) ← parseExpr rest
     let (r, rest) ← parseExpr rest
     pure (.bin o l r, rest)
+  | "LAM" :: rest => do
+    let (e, rest) ← parseExpr rest
+    pure (.lam 0 e, rest)       -- numbered afterwards (`numberLams`)
   | "FM" :: fn :: rest => some (.callMany fn, rest)
   | "F" :: fn :: "0" :: rest => some (.call0 fn, rest)
   | "F" :: fn :: "1" :: rest => do
@@ -145,6 +150,32 @@ partial def parseExpr : List String → Option (E × List String)
     let (d, rest) ← parseExpr rest
     pure (.call4 fn a b c d, rest)
   | _ => none
+
+/-- give the lambda nodes pairwise different ids (preorder): one `ExecutionState` per node. -/
+def numberLams : E → Nat → E × Nat
+  | .un op e, n => let (e', n') := numberLams e n; (.un op e', n')
+  | .bin op l r, n =>
+    let (l', n1) := numberLams l n
+    let (r', n2) := numberLams r n1
+    (.bin op l' r', n2)
+  | .call1 fn a, n => let (a', n') := numberLams a n; (.call1 fn a', n')
+  | .call2 fn a b, n =>
+    let (a', n1) := numberLams a n
+    let (b', n2) := numberLams b n1
+    (.call2 fn a' b', n2)
+  | .call3 fn a b c, n =>
+    let (a', n1) := numberLams a n
+    let (b', n2) := numberLams b n1
+    let (c', n3) := numberLams c n2
+    (.call3 fn a' b' c', n3)
+  | .call4 fn a b c d, n =>
+    let (a', n1) := numberLams a n
+    let (b', n2) := numberLams b n1
+    let (c', n3) := numberLams c n2
+    let (d', n4) := numberLams d n3
+    (.call4 fn a' b' c' d', n4)
+  | .lam _ e, n => let (e', n') := numberLams e (n + 1); (.lam n e', n')
+  | e, n => (e, n)
 
 def parseScope : List String → Option (Scope Float)
   | [] => some []
@@ -240,13 +271,23 @@ partial def brOf (ctx : Ctx Float) (σ : Scope Float) : E → Cache → List Str
   | .call4 _ a b d e, c =>
     ["call4"] ++ brOf ctx σ a c.k1 ++ brOf ctx σ b c.k2 ++ brOf ctx σ d c.k3a ++ brOf ctx σ e c.k3b
   | .callMany _, _ => ["call-too-many-args"]
+  | .lam _ e, c =>
+    ["lambda-node", if stateful e then "lambda-stateful-body" else "lambda-stateless-body"] ++
+      (match e with | .lam _ _ => ["lambda-directly-in-lambda"] | _ => []) ++
+      (match typeP ctx σ e with
+       | some .time => ["lambda-time-refused"]
+       | some .missing => ["lambda-missing"]
+       | none => ["lambda-type-err"]
+       | _ => []) ++ brOf ctx σ e c.k1
 
 structure St where
   expr : Option E := none
   ora : Ora := {}
   compiled : Bool := false
-  cache : Cache := .leaf
-  fns : List (Nat × FnState Float) := []
+  world : World Float := { cache := .leaf, lams := fun _ => FnBase.init floatOps, groups := fun _ => FnBase.init floatOps }
+  insts : List Nat := []           -- the copies that exist
+  asked : List Nat := []           -- the copies that have been evaluated
+  known : Option String := none    -- the recorded deviation was observed (detail of the first occurrence)
   hists : List (Nat × Option (Hist Float)) := []
   branches : List String := []
   evals : Nat := 0
@@ -269,47 +310,33 @@ def parseWant : String → Option Ty
   | "dBool" => some .bool | "dDuration" => some .duration
   | _ => none
 
-/-- a case `lam <k>` / `lev <inst> => ok b:<0|1>`: the expression `(lambda: count()) > k` asked by instances. -/
-def judgeLam (k : Int) (lines : List String) : Verdict := Id.run do
-  let mut ids : List Nat := []
-  let mut obs : List String := []
-  for l in lines do
-    let (opT, o) := splitObs (tokens l)
-    match opT with
-    | ["lev", i] =>
-      let some i := i.toNat? | return .badop l
-      ids := ids ++ [i]
-      obs := obs ++ [" ".intercalate o]
-    | _ => return .badop l
-  let render (bs : List Bool) : List String := bs.map (fun b => s!"ok b:{boolTok b}")
-  let spec := render (Lam.runPerGroup k ids [])
-  let model := render (Lam.runShared k ids 0)
-  if obs.contains "panic" then return .specfail "no-trap" "nested lambda evaluation panicked"
-  if obs != spec then
-    -- the property fails on the observed answers; is it exactly the recorded deviation?
-    if obs == model && Lam.severalGroups ids then
-      return .known "nested-lambda-state-shared" s!"count() inside a nested lambda counted the points of all {ids.eraseDups.length} groups: spec {spec} observed {obs}"
-    return .specfail "stateful-per-group" s!"nested lambda: spec {spec} observed {obs}"
-  if obs != model then return .mismatch s!"nested lambda: model {model} observed {obs}"
-  return .ok (ids.length ≥ 2) ["lambda-node", if Lam.severalGroups ids then "lambda-several-groups-agree" else "lambda-one-group"]
+/-- the property on one observed answer: `.ok branch` = holds, `.error (clause, detail)` = fails. -/
+def specOn (l obsC : String) : Expect Float → Except (String × String) String
+  | .exactly o =>
+    if obsC != renderOut o then
+      .error ((match o with | .ok _ => "value-is-reference-value" | _ => "fault-is-error"), s!"{l}: reference {renderOut o} observed {obsC}")
+    else .ok (match o with | .ok _ => "spec-welltyped-value" | _ => "spec-welltyped-fault")
+  | .errOr v =>
+    if obsC != "err" && obsC != s!"ok {renderVal v}" then
+      .error ("value-is-reference-value", s!"{l}: reference err-or {renderVal v} observed {obsC}")
+    else .ok "spec-illtyped-unreached"
+  | .mustErr =>
+    if obsC != "err" then .error ("type-error-is-error", s!"{l}: reference err observed {obsC}") else .ok "spec-illtyped-err"
+
+/-- deviation clause of the recorded finding `nested-lambda-state-shared`: the expression has a lambda node whose body
+calls a stateful function, at least two copies (groups) have been evaluated, and the observed answer is the one ONE
+state per lambda node shared by all copies gives (the model's answer). Any other failure of the property stays a SPECFAIL. -/
+def deviation (e : E) (asked : List Nat) (obsC : String) (model : Outcome V) : Bool :=
+  statefulLam e && asked.length ≥ 2 && obsC == renderOut model
 
 def judge (_id : String) (lines : Array String) : Verdict := Id.run do
-  match lines.toList with
-  | first :: rest =>
-    match tokens first with
-    | ["lam", k] =>
-      match k.toInt? with
-      | some k => return judgeLam k rest
-      | none => return .badop first
-    | _ => pure ()
-  | [] => pure ()
   let mut st : St := {}
   for l in lines do
     let (opT, obs) := splitObs (tokens l)
     match opT with
     | "expr" :: rest =>
       match parseExpr rest with
-      | some (e, []) => st := { st with expr := some e }
+      | some (e, []) => st := { st with expr := some (numberLams e 0).1 }
       | _ => return .badop l
     | ["re", p, s, b] =>
       let some p := unescRaw p | return .badop l
@@ -330,12 +357,14 @@ def judge (_id : String) (lines : Array String) : Verdict := Id.run do
       let ctx := mkCtx st.ora
       let m := if compileOk ctx e then "ok" else "err"
       if obs != [m] then return .mismatch s!"compile: model {m} observed {obs}"
-      st := { st with compiled := m == "ok", cache := compileCache ctx e,
-                      fns := [(0, FnState.init floatOps)], hists := [(0, some {})] }
+      st := { st with compiled := m == "ok", world := World.init ctx e, insts := [0], hists := [(0, some {})] }
       st := st.addBr [if m == "ok" then "compile-ok" else "compile-err"]
     | ["inst", k] =>
       let some k := k.toNat? | return .badop l
-      st := { st with fns := setI st.fns k (FnState.init floatOps), hists := setI st.hists k (some {}) }
+      -- CopyReset: fresh functions for this copy; cache and lambda-node states stay where they are
+      let w := st.world
+      st := { st with world := { w with groups := fun j => if j = k then FnBase.init floatOps else w.groups j },
+                      insts := if st.insts.contains k then st.insts else k :: st.insts, hists := setI st.hists k (some {}) }
       st := st.addBr ["copy-reset"]
     | "pt" :: k :: ptoks =>
       -- kapacitor.EvalPredicate against a point (fillScope + Type + EvalBool)
@@ -343,13 +372,13 @@ def judge (_id : String) (lines : Array String) : Verdict := Id.run do
       if !st.compiled then return .badop s!"pt on an expression that did not compile: {l}"
       let some k := k.toNat? | return .badop l
       let some pt := parsePoint ptoks | return .badop l
-      let some fs := getI st.fns k | return .badop s!"unknown instance {l}"
+      if !st.insts.contains k then return .badop s!"unknown instance {l}"
       let some hs := getI st.hists k | return .badop s!"unknown instance {l}"
       let ctx := mkCtx st.ora
       let obsC := match obs with
         | ["ok", v] => s!"ok {canonObs v}"
         | o => " ".intercalate o
-      st := { st with evals := st.evals + 1 }
+      st := { st with evals := st.evals + 1, asked := if st.asked.contains k then st.asked else k :: st.asked }
       let refs := refsOf e
       let brs : List String :=
         ["path-point"] ++
@@ -357,46 +386,43 @@ def judge (_id : String) (lines : Array String) : Verdict := Id.run do
         (if refs.contains "time" then ["pt-time"] else []) ++
         (if refs.any (fun n => n != "time" && (assoc pt.fields n).isNone && (assoc pt.tags n).isSome) then ["pt-tag"] else []) ++
         (if refs.any (fun n => n != "time" && (assoc pt.fields n).isNone && (assoc pt.tags n).isNone) then ["pt-missing"] else [])
-      let brs := brs ++ (match fillScope refs pt with | some σ => brOf ctx σ e st.cache | none => [])
+      let brs := brs ++ (match fillScope refs pt with | some σ => brOf ctx σ e st.world.cache | none => [])
       if brs.contains "dyn-typeflip" then st := { st with flipSeen := true }
       st := st.addBr brs
       if obsC == "panic" then return .specfail "no-trap" s!"{l}: EvalPredicate panicked"
+      -- the model's answer: the copy's own functions, the shared cache and lambda-node states
+      let w := st.world
+      let (o, c', fs') := evalPoint ctx e pt w.cache { toFnBase := w.groups k, lams := w.lams }
+      let w' : World Float := { cache := c', lams := fs'.lams, groups := fun j => if j = k then fs'.toFnBase else w.groups j }
       let mut newH : Option (Hist Float) := none
       match hs with
       | some h =>
         let (ex, h') := expectPoint ctx e pt h
         newH := h'
-        match ex with
-        | .exactly o =>
-          if obsC != renderOut o then
-            return .specfail (match o with | .ok _ => "value-is-reference-value" | _ => "fault-is-error")
-              s!"{l}: reference {renderOut o} observed {obsC}"
-          st := st.addBr [match o with | .ok _ => "spec-welltyped-value" | _ => "spec-welltyped-fault"]
-        | .errOr v =>
-          if obsC != "err" && obsC != s!"ok {renderVal v}" then
-            return .specfail "value-is-reference-value" s!"{l}: reference err-or {renderVal v} observed {obsC}"
-          st := st.addBr ["spec-illtyped-unreached"]
-        | .mustErr =>
-          if obsC != "err" then return .specfail "type-error-is-error" s!"{l}: reference err observed {obsC}"
-          st := st.addBr ["spec-illtyped-err"]
+        match specOn l obsC ex with
+        | .ok tag => st := st.addBr [tag]
+        | .error (cl, d) =>
+          if deviation e st.asked obsC o then
+            st := { st with known := st.known <|> some d }
+            st := st.addBr ["known-lambda-state-shared"]
+          else return .specfail cl d
       | none => st := st.addBr ["spec-history-unfixed"]
-      let (o, c', fs') := evalPoint ctx e pt st.cache fs
       if obsC != renderOut o then return .mismatch s!"{l}: model {renderOut o} observed {obsC}"
       if obsC.startsWith "ok" then st := { st with okSeen := true }
       st := st.addBr [if obsC.startsWith "ok" then "out-ok" else "out-err"]
-      st := { st with cache := c', fns := setI st.fns k fs', hists := setI st.hists k newH }
+      st := { st with world := w', hists := setI st.hists k newH }
     | "ev" :: k :: path :: binds =>
       let some e := st.expr | return .badop l
       if !st.compiled then return .badop s!"ev on an expression that did not compile: {l}"
       let some k := k.toNat? | return .badop l
       let some σ := parseScope binds | return .badop l
-      let some fs := getI st.fns k | return .badop s!"unknown instance {l}"
+      if !st.insts.contains k then return .badop s!"unknown instance {l}"
       let some hs := getI st.hists k | return .badop s!"unknown instance {l}"
       let ctx := mkCtx st.ora
       let obsC := match obs with
         | ["ok", v] => s!"ok {canonObs v}"
         | o => " ".intercalate o
-      let brs := brOf ctx σ e st.cache
+      let brs := brOf ctx σ e st.world.cache
       if brs.contains "dyn-typeflip" then st := { st with flipSeen := true }
       st := st.addBr (("path-" ++ path) :: brs)
       st := { st with evals := st.evals + 1 }
@@ -409,43 +435,46 @@ def judge (_id : String) (lines : Array String) : Verdict := Id.run do
         | none => pure ()
         if obsC == "panic" then return .specfail "no-trap" s!"{l}: Type panicked"
         if obsC != m then return .mismatch s!"{l}: model {m} observed {obsC}"
-        st := { st with cache := typeW ctx σ e st.cache }
+        st := { st with world := (st.world.step ctx e k .type σ).2 }
       else
+        st := { st with asked := if st.asked.contains k then st.asked else k :: st.asked }
         -- the property on the observed answer
         let want : Option Ty := if path == "eval" then none else if path == "pred" then some .bool else parseWant path
         if path != "eval" && want.isNone then return .badop l
         if obsC == "panic" then return .specfail "no-trap" s!"{l}: the evaluation panicked"
+        -- the model's answer
+        let p : Path := if path == "eval" then .eval else if path == "pred" then .pred else .direct (want.getD .bool)
+        let (o, w') := st.world.step ctx e k p σ
         let mut newH : Option (Hist Float) := none
         match hs with
         | some h =>
           let (ex, h') := expect ctx σ e want h
           newH := h'
-          match ex with
-          | .exactly o =>
-            if obsC != renderOut o then
-              return .specfail (match o with | .ok _ => "value-is-reference-value" | _ => "fault-is-error")
-                s!"{l}: reference {renderOut o} observed {obsC}"
-            st := st.addBr [match o with | .ok _ => "spec-welltyped-value" | _ => "spec-welltyped-fault"]
-          | .errOr v =>
-            if obsC != "err" && obsC != s!"ok {renderVal v}" then
-              return .specfail "value-is-reference-value" s!"{l}: reference err-or {renderVal v} observed {obsC}"
-            st := st.addBr ["spec-illtyped-unreached"]
-          | .mustErr =>
-            if obsC != "err" then return .specfail "type-error-is-error" s!"{l}: reference err observed {obsC}"
-            st := st.addBr ["spec-illtyped-err"]
+          match specOn l obsC ex with
+          | .ok tag => st := st.addBr [tag]
+          | .error (cl, d) =>
+            if deviation e st.asked obsC o then
+              st := { st with known := st.known <|> some d }
+              st := st.addBr ["known-lambda-state-shared"]
+            else return .specfail cl d
         | none => st := st.addBr ["spec-history-unfixed"]
         -- the tie
-        let (o, c', fs') :=
-          if path == "eval" then evalTop ctx σ e st.cache fs
-          else if path == "pred" then evalPred ctx σ e st.cache fs
-          else evalDirect ctx σ (want.getD .bool) e st.cache fs
         if obsC != renderOut o then return .mismatch s!"{l}: model {renderOut o} observed {obsC}"
         if obsC.startsWith "ok" then st := { st with okSeen := true }
         st := st.addBr [if obsC.startsWith "ok" then "out-ok" else "out-err"]
-        st := { st with cache := c', fns := setI st.fns k fs', hists := setI st.hists k newH }
+        st := { st with world := w', hists := setI st.hists k newH }
     | _ => return .badop l
+  match st.known with
+  | some d =>
+    return .known "nested-lambda-state-shared"
+      s!"a stateful function inside a nested lambda ran over the points of all {st.asked.length} groups that asked: {d}"
+  | none => pure ()
   let nt := st.okSeen && st.evals ≥ 2 && (st.flipSeen || (match st.expr with | some e => stateful e | none => false))
-  return .ok nt st.branches.reverse
+  let brs := st.branches.reverse ++
+    (match st.expr with
+     | some e => if statefulLam e then [if st.asked.length ≥ 2 then "lambda-several-groups-agree" else "lambda-one-group"] else []
+     | none => [])
+  return .ok nt brs
 
 end Kap.C04.Drv
 
